@@ -71,7 +71,8 @@ pub struct CanonicalFormatter {
 /// ```
 #[derive(Debug, Default)]
 struct Object {
-    obj: BTreeMap<Vec<u8>, Vec<u8>>,
+    // Members are ordered by their unescaped key; the value is the serialized (key, value) pair.
+    obj: BTreeMap<Vec<u8>, (Vec<u8>, Vec<u8>)>,
     next_key: Vec<u8>,
     next_value: Vec<u8>,
     key_done: bool,
@@ -111,6 +112,25 @@ impl CanonicalFormatter {
             )
         })
     }
+}
+
+/// Canonical JSON orders object members by their keys, not by the serialized form of the keys:
+/// strips the surrounding quotes and undoes the escaping of `"` and `\\` in a serialized key.
+fn sort_key(serialized: &[u8]) -> Vec<u8> {
+    let inner = serialized
+        .strip_prefix(b"\"")
+        .and_then(|key| key.strip_suffix(b"\""))
+        .unwrap_or(serialized);
+    let mut key = Vec::with_capacity(inner.len());
+    let mut bytes = inner.iter();
+    while let Some(&byte) = bytes.next() {
+        if byte == b'\\' {
+            key.extend(bytes.next());
+        } else {
+            key.push(byte);
+        }
+    }
+    key
 }
 
 /// Wraps `serde_json::CompactFormatter` to use the appropriate writer (see
@@ -238,7 +258,7 @@ impl Formatter for CanonicalFormatter {
         let mut writer = self.writer(writer);
         let mut first = true;
 
-        for (key, value) in object.obj {
+        for (_, (key, value)) in object.obj {
             CompactFormatter.begin_object_key(&mut writer, first)?;
             writer.write_all(&key)?;
             CompactFormatter.end_object_key(&mut writer)?;
@@ -273,7 +293,7 @@ impl Formatter for CanonicalFormatter {
         let object = self.obj_mut()?;
         let key = std::mem::take(&mut object.next_key);
         let value = std::mem::take(&mut object.next_value);
-        object.obj.insert(key, value);
+        object.obj.insert(sort_key(&key), (key, value));
         Ok(())
     }
 
